@@ -3,7 +3,10 @@
 
 package exec
 
-import "sync/atomic"
+import (
+	"fmt"
+	"sync/atomic"
+)
 
 // VerifMachineState is a copy of the manager-owned state of a machine.
 type VerifMachineState struct {
@@ -51,4 +54,15 @@ func verifManagerLoop(m *machineManager, machQ *machineQ, probation *machineFail
 		snap.Machines = append(snap.Machines, VerifMachineState{mach.Addr, mach.taskProcs, mach.maxTaskProcs, "probation"})
 	}
 	f(snap)
+}
+
+// verifCombineProbe is called before each further probe of the combining
+// frame's hash table. Probing idx+1, idx+2, ... over a table of cap=2^k
+// slots visits every slot within cap tries, and the table always has an
+// empty slot (len <= threshold < cap), so more than cap tries means that
+// the probe sequence cannot terminate.
+func verifCombineProbe(try, cap int) {
+	if try > cap {
+		panic(fmt.Sprintf("verif: combiningFrame probe did not terminate after %d tries in a table of %d slots", try, cap))
+	}
 }
